@@ -73,7 +73,10 @@ class StochasticGame:
         """
         transitions = 0
         for state_transitions in self.transition_list:
-            transitions += len(state_transitions)
+            # a malformed entry (e.g. None) has no transitions to count;
+            # solve() is what reports it
+            if isinstance(state_transitions, (list, tuple)):
+                transitions += len(state_transitions)
         return transitions
 
     def init_states(self):
